@@ -151,9 +151,10 @@ def sibling(repo, chk):
     c = sp[0].targets[0].slice
     ok = is_const(sp[0].value, 0) and isinstance(c.ops[0], ast.Lt) and abs(float(const_value(c.comparators[0])) - 1e-4) < 1e-12
     chk.ob('SIBLING', eng, sp[0], 'sparse storage prunes exactly the entries whose posterior is < 1e-4 and writes the sentinel 0', ok, construct='sparsifier')
-    sm = [d for d in eng.flow.defs_reaching(c.left.id, sp[0]) if d.value is not None] if isinstance(c.left, ast.Name) else []
-    ok = bool(sm) and all('softmax(' in src(d.value) and 'axis=1' in src(d.value) for d in sm)
-    chk.ob('SIBLING', eng, sp[0], 'the posterior is the softmax over the class axis of the same logits', ok and sm and src(sm[0].value.args[0]) == src(sp[0].targets[0].value),
+    post = eng.flow.inline(c.left, sp[0])
+    ok = isinstance(post, ast.Call) and (call_name(post) or '').endswith('softmax') and any(k.arg == 'axis' and is_const(k.value, 1) for k in post.keywords) \
+        and post.args and src(post.args[0]) == src(sp[0].targets[0].value)
+    chk.ob('SIBLING', eng, sp[0], 'the posterior is the softmax over the class axis of the same logits', ok,
            construct='sparsifier posterior')
     # normalisation axis
     ls = repo.func(L + ':log_softmax')
